@@ -17,8 +17,10 @@ import (
 	"google.golang.org/protobuf/types/known/anypb"
 	"google.golang.org/protobuf/types/known/structpb"
 
+	"github.com/obolnetwork/charon/app/version"
 	"github.com/obolnetwork/charon/core"
 	pbv1 "github.com/obolnetwork/charon/core/corepb/v1"
+	"github.com/obolnetwork/charon/core/infosync"
 	"github.com/obolnetwork/charon/core/priority"
 	"github.com/obolnetwork/charon/p2p"
 	"github.com/obolnetwork/charon/testutil"
@@ -186,6 +188,57 @@ func TestReproMalformedPeerAborts(t *testing.T) {
 	res, err := runOnce(t, 4, 3, [][]string{{"v2", "v1"}, {"v2", "v1"}, {"v2", "v1"}, {"v1", "v1"}})
 	t.Logf("3 well formed messages + 1 with a duplicate priority: proposal=%v, Prioritise returned: %v", res != nil, err)
 	if res != nil || err == nil {
+		t.Fatalf("not reproduced")
+	}
+}
+
+type subCons struct {
+	subs []func(context.Context, core.Duty, *pbv1.PriorityResult) error
+}
+
+func (*subCons) ProposePriority(context.Context, core.Duty, *pbv1.PriorityResult) error { return nil }
+func (c *subCons) SubscribePriority(fn func(context.Context, core.Duty, *pbv1.PriorityResult) error) {
+	c.subs = append(c.subs, fn)
+}
+
+// infosync.Protocols: "returns the latest cluster wide supported protocols before the slot" -- the stored results are
+// scanned in the order the decisions ARRIVED and the scan stops at the first stored slot above the query; when the
+// decision of an earlier slot arrives after the one of a later slot the answers are those of the wrong round.
+// (Observation: info-sync rounds are an epoch apart and their duties expire in between, so this order needs a very late
+// consensus decision.)
+func TestReproInfosyncArrivalOrder(t *testing.T) {
+	drv.QuietLogs(t)
+	ctx, cancel := context.WithCancel(context.Background())
+	defer cancel()
+	key := testutil.GenerateInsecureK1Key(t, 300)
+	id, _ := p2p.PeerIDFromKey(key.PubKey())
+	cons := new(subCons)
+	reg := func(string, host.Host, protocol.ID, func() proto.Message, p2p.HandlerFunc, ...p2p.SendRecvOption) {}
+	comp, err := priority.NewComponent(ctx, stubHost{id: id}, []peer.ID{id}, 1, nil, reg, cons, time.Hour, key,
+		func(core.Duty) (time.Time, bool) { return time.Now().Add(time.Hour), true }, func(core.Duty) bool { return true })
+	if err != nil {
+		t.Fatal(err)
+	}
+	v110, _ := version.Parse("v1.10")
+	isync := infosync.New(comp, []version.SemVer{v110}, []protocol.ID{"/local"}, nil)
+	res := func(proto string) *pbv1.PriorityResult {
+		one := func(topic, p string) *pbv1.PriorityTopicResult {
+			return &pbv1.PriorityTopicResult{Topic: strAny(topic), Priorities: []*pbv1.PriorityScoredResult{{Priority: strAny(p), Score: 1000}}}
+		}
+
+		return &pbv1.PriorityResult{Topics: []*pbv1.PriorityTopicResult{one("version", "v1.10"), one("protocol", proto)}}
+	}
+	decide := func(slot uint64, proto string) {
+		if err := cons.subs[0](ctx, core.NewInfoSyncDuty(slot), res(proto)); err != nil {
+			t.Fatal(err)
+		}
+	}
+	decide(20, "/decided-at-20")
+	decide(10, "/decided-at-10") // arrives late
+	t.Logf("results decided for slots 10 and 20 (20 arrived first)")
+	t.Logf("Protocols(10) = %v   (a result for slot 10 exists)", isync.Protocols(10))
+	t.Logf("Protocols(25) = %v   (the latest round before 25 is slot 20)", isync.Protocols(25))
+	if string(isync.Protocols(10)[0]) == "/decided-at-10" && string(isync.Protocols(25)[0]) == "/decided-at-20" {
 		t.Fatalf("not reproduced")
 	}
 }
